@@ -11,3 +11,4 @@ pub mod sa;
 pub mod identity;
 pub mod misc;
 pub mod merkle;
+pub mod registries;
